@@ -1,13 +1,14 @@
 SPECIFICATION MCSpec
 CONSTANTS
-  Groups = {"g1","g2"}
-  Names = {"s1","s2"}
-  Dev = {}
+  Groups = {"g1"}
+  Names = {"s1"}
+  Dev = {"SqlRetakeFails","SqlSnapshotNeedsGroupRow","SqlPruneCountsRows","SqlRestoreReordersLeaves","SqlOffsetWraps","SqlLikeIgnoresCase"}
+  KnownFinding <- Silent
   Cap = 0
   MaxLimit = 10000
   DefLimit = 1000
-  Acts = {"groups","relays","snaps"}
-  Nids = {"n1","n2"}
+  Acts = {"groups","proc","welcomes","glob","snaps"}
+  Nids = {}
   Epochs = {1}
   Ptrs = {}
   Relays = {"r1"}
@@ -19,11 +20,11 @@ CONSTANTS
   MsgEpochs = {}
   MsgStates = {"processed"}
   Tags = {""}
-  Wrappers = {1}
-  ProcStates = {"failed"}
-  ProcEpochs = {}
+  Wrappers = {1,2}
+  ProcStates = {"failed","processed"}
+  ProcEpochs = {1}
   WelcomeIds = {1}
-  WelcomeStates = {"pending"}
+  WelcomeStates = {"pending","accepted"}
   GdTypes = {"tree"}
   GdVals = {"t1"}
   LeafVals = {"a"}
@@ -33,11 +34,12 @@ CONSTANTS
   GlobKeys = {"k1"}
   Ats = {1}
   Mins = {2}
-  Lims = {1}
-  Offs = {0}
+  Lims = {1,2}
+  Offs = {0,1}
   Subs = {"abc"}
 VIEW MCView
 INVARIANT TypeInv
-INVARIANT InvC10Plain
-PROPERTY PropC09Plain
+INVARIANT InvC10
+INVARIANT InvC18
+PROPERTY PropC09
 CHECK_DEADLOCK FALSE
